@@ -16,8 +16,8 @@ LEVEL = "exploration"
 TECHNIQUE = "exhaustive product of constructed format fields and deterministic values, three-way differential"
 RULE = ("format = literal + field (+ literal + field (+ field)); field = lookup path (18 shapes over attribute, index, "
         "key and call steps) x conversion {none,s,r,a} x format spec {none, empty, >6, *^7, 06.2f, nested >{w}}; "
-        "second field = duplicate / other conversion / other spec / root / other key; leaf value from 22 deterministic "
-        "values (text, numbers, containers, objects with distinct str/repr, custom __format__, LogLevel, Failure, "
+        "second field = duplicate / other conversion / other spec / root / other key; leaf value from 31 deterministic "
+        "values (text, numbers, containers, objects with distinct str/repr, custom __format__, subclasses of str/int/float/bytes/list/dict overriding __str__/__repr__/__format__, LogLevel, Failure, "
         "self-referential list).  In scope = reference evaluation succeeds.  "
         "non-trivial = in-scope case using a lookup step, call, conversion, non-empty spec or a repeated field")
 BOUNDS = {"quick": "all single-field formats x all leaves; two-field formats with 6 second-field variants x 2 literal "
@@ -30,8 +30,8 @@ ASSUMPTIONS = [
     "the reference (getattr/getitem/call, str/repr/ascii, format()) is used only to scope cases and to recognise the "
     "shape of already staged defects; the verdict compares the three real outputs with each other",
 ]
-MIN = {"quick": {"evaluations": 105000, "nontrivial": 83000, "outcomes": 4},
-       "thorough": {"evaluations": 890000, "nontrivial": 154000, "outcomes": 4}}
+MIN = {"quick": {"evaluations": 150000, "nontrivial": 120000, "outcomes": 4},
+       "thorough": {"evaluations": 1190000, "nontrivial": 215000, "outcomes": 4}}
 
 
 class Obj:
@@ -59,6 +59,27 @@ class Fmt:
 
     def __repr__(self):
         return "Fmt-repr"
+
+
+def _sub(base, name, with_format):
+    """Subclass of a builtin overriding __str__ and __repr__ (and __format__: own text for a non-empty spec,
+    str(self) for the empty one, like the builtins do)."""
+    ns = {"__str__": lambda self: name + "-str", "__repr__": lambda self: name + "-repr"}
+    if with_format:
+        ns["__format__"] = lambda self, spec: ("%s-format(%s)" % (name, spec)) if spec else str(self)
+    if base is dict or base is list:
+        ns["__hash__"] = None
+    return type(name, (base,), ns)
+
+
+StrSub = _sub(str, "StrSub", False)
+StrSubF = _sub(str, "StrSubF", True)
+IntSub = _sub(int, "IntSub", False)
+IntSubF = _sub(int, "IntSubF", True)
+FloatSub = _sub(float, "FloatSub", True)
+BytesSub = _sub(bytes, "BytesSub", True)
+ListSub = _sub(list, "ListSub", True)
+DictSub = _sub(dict, "DictSub", True)
 
 
 def _failure():
@@ -100,8 +121,17 @@ LEAVES = {
     "loglevel": _level,
     "failure": _failure,
     "self-referential-list": _circular,
+    "str-subclass": lambda: StrSub("raw characters"),
+    "str-subclass-format": lambda: StrSubF("raw characters"),
+    "int-subclass": lambda: IntSub(41),
+    "int-subclass-format": lambda: IntSubF(41),
+    "float-subclass": lambda: FloatSub(2.25),
+    "bytes-subclass": lambda: BytesSub(b"raw\xff"),
+    "list-subclass": lambda: ListSub([1, "x"]),
+    "dict-subclass": lambda: DictSub(k=1),
+    "list-of-subclasses": lambda: [StrSub("raw"), IntSub(3)],
 }
-REDUCED_LEAVES = ["str", "non-ascii", "float", "list", "str-vs-repr", "custom-format"]
+REDUCED_LEAVES = ["str", "non-ascii", "float", "list", "str-vs-repr", "custom-format", "str-subclass", "int-subclass-format"]
 
 A, I, K, C = "attr", "idx", "key", "call"
 PATHS = [
